@@ -493,6 +493,42 @@ def run(only=None):
         s.extra["messages"] = len(M68)
         s.done()
 
+    if want("encode_again_after_caller_used_result"):
+        # histories of length 2 on one message: encode, the caller writes into / cuts the codeword it was handed, encode again
+        # (plain message, message||checksum and matrix form): all must still give the first codeword
+        s = rep.sub("encode_again_after_caller_used_result",
+                    "per codec: weight <= 1 messages + complements + seed words; encode(m), scribble on the returned bitarray in "
+                    "place, then encode(m), encode(m||checksum), encode(matrix form) must equal the first codeword")
+        for code, K_, enc_f, all_f, ext in (
+            ("32_11", 11, lambda b: VBPTC3211.encode(b, True), VBPTC3211.deinterleave_all_bits, None),
+            ("128_72", 72, VBPTC12873.encode, VBPTC12873.deinterleave_all_bits, VBPTC12873.deinterleave_cs5_bits),
+            ("68_28", 28, VBPTC6828.encode, VBPTC6828.deinterleave_all_bits, VBPTC6828.deinterleave_crc8_bits),
+        ):
+            msgs = spaces.small_scope_messages(K_, 1, extra=[env.det_bits(f"c09-again-{code}-{i}", K_) for i in range(4)])
+            for m in msgs:
+                case = {"code": code, "message": m}
+                try:
+                    first = enc_f(bitarray(m))
+                    snap = first.to01()
+                    full = all_f(bitarray(snap))
+                    tail = ext(bitarray(snap)).to01() if ext else None
+                    first.invert()
+                    del first[:7]
+                    full2 = bitarray(full)  # private copy of the matrix form
+                    forms = {"message": bitarray(m), "matrix": full2}
+                    if tail is not None:
+                        forms["message_with_checksum"] = bitarray(m + tail)
+                    for fname, arg in forms.items():
+                        again = enc_f(arg)
+                        if again.to01() != snap:
+                            s.violation(f"second_encode_differs_after_caller_wrote_first_result:{code}:{fname}", {**case, "first": snap, "again": again.to01()},
+                                        "encoding the same message again gives other bits once the caller has modified the codeword it was handed")
+                        again.invert()
+                except Exception as e:
+                    s.violation("exception_encode_again:" + exc_sig(e), case, repr(e))
+                s.case(nontrivial=True, calls=5, outcome=code, sample=case if len(s.samples) < 1 else None)
+        s.done()
+
     rep.bounds = {
         "32_11": "all 2^11 messages x both parities (complete)",
         "128_72": "weight <= " + ("3" if rep.thorough() else "2") + " + complements; all single-octet values at all positions on 3 backgrounds; "
